@@ -122,7 +122,10 @@ def sort_no_duplicates(z3_int_list):
     n = len(z3_int_list)
     a = [z3.FreshInt() for _ in range(n)]
     constraints = [z3.Or([a[i] == z3_int_list[j] for j in range(n)]) for i in range(n)]
-    constraints.append(z3.And([a[i] < a[i + 1] for i in range(n - 1)]))
+    if n > 1:
+        # (for a single value the empty conjunction would be added twice by callers
+        # that sort both the starts and the ends, and rejected as a duplicate assertion)
+        constraints.append(z3.And([a[i] < a[i + 1] for i in range(n - 1)]))
     return a, constraints
 
 
